@@ -227,7 +227,7 @@ def shard_random(shard, nshards, tier, seed, scratch):
     fails = run_hypothesis(st_case(), lambda c: check_case(c, stats, scratch), max(1, total // nshards), seed, shrink_budget=300 if tier == 'quick' else 2000)
     for f in fails:
         f['leg'] = 'random'
-    return {'stats': stats.export(), 'failures': fails, 'extra': {'exhaustive': True}}
+    return {'stats': stats.export(), 'failures': fails}
 
 
 def replay(case, clause=None):
